@@ -327,7 +327,31 @@ def _compressed_bodies(rng):
         out.append((b"deflate", co.compress(plain) + co.flush(), plain))
         out.append((b"gzip", gzip.compress(plain), plain))
         out.append((b"GZip", gzip.compress(plain[: len(plain) // 2]) + gzip.compress(plain[len(plain) // 2:]), plain))
+    # bodies that can NOT be decoded (plain = None): corrupt at the start, in the middle, at the end, followed by
+    # bytes that look like another message -- what happens to the rest must not depend on the reads either
+    good = gzip.compress(b"hello world " * 5)
+    nxt = b"GET /smuggled HTTP/1.1\r\nHost: h\r\n\r\n"
+    for wire in (b"\xff" * 9, good[:12] + b"\xff" * 8 + good[20:], good[:-6] + b"\x00" * 6, good[:10] + b"\xff" * 12 + nxt,
+                 b"\x00" + nxt, zlib.compress(b"x" * 50)[:-4] + nxt):
+        out.append((rng.choice([b"gzip", b"deflate"]), wire, None))
     return out
+
+
+def _decoded_differs(one, seg):
+    """Same messages, same end state of each body.  A body that ends in an error in both runs may have handed on
+    more or fewer decoded bytes before the error was noticed (streaming: 'how early a rejection is noticed'), but
+    the bytes must agree as far as they go."""
+    if one["outcome"].split("@")[0] != seg["outcome"].split("@")[0] or len(one["msgs"]) != len(seg["msgs"]):
+        return True
+    for x, y in zip(one["msgs"], seg["msgs"]):
+        if (x["eof"], x["exc"]) != (y["eof"], y["exc"]):
+            return True
+        if x["exc"] is None:
+            if x["data"] != y["data"]:
+                return True
+        elif not (x["data"].startswith(y["data"]) or y["data"].startswith(x["data"])):
+            return True
+    return False
 
 
 def suite_decoded_bodies(ctx):
@@ -336,6 +360,16 @@ def suite_decoded_bodies(ctx):
     chunked framing (one chunk, several chunks), every single cut + byte-at-a-time + a few random segmentations."""
     rng = ctx.rng
     n = 0
+    cdir = os.path.join(fw.VERIF, "corpus", "C03")
+    for fn in sorted(os.listdir(cdir)) if os.path.isdir(cdir) else []:
+        c = json.load(open(os.path.join(cdir, fn)))
+        c = c.get("case", c)
+        if c.get("kind") == "decoded-body":
+            r = replay(ctx, c)
+            n += 1
+            ctx.count("corpus:decoded-body")
+            if r["violates"]:
+                ctx.violation(c, f"corpus case {fn}: {r}")
     for tok, wire, plain in _compressed_bodies(rng):
         framings = []
         framings.append((b"Content-Length: %d\r\n" % len(wire), wire))
@@ -355,7 +389,10 @@ def suite_decoded_bodies(ctx):
                 lim = H.DEFAULT_LIM
                 one = run([s], lim)
                 ok1 = one["outcome"].startswith("OK") and one["msgs"] and one["msgs"][0]["exc"] is None
-                if ok1 and bytes.fromhex(one["msgs"][0]["data"]) != plain:
+                if plain is not None and not ok1:
+                    ctx.violation({"parser": parser, "stream": s.hex(), "lim": list(lim), "segs": [s.hex()], "kind": "decoded-body", "plain": plain.hex()},
+                                  f"{parser} parser: a valid {tok.decode()} body is not decoded: {one['outcome']} {one['msgs'][0]['exc'] if one['msgs'] else None}")
+                if plain is not None and ok1 and bytes.fromhex(one["msgs"][0]["data"]) != plain:
                     ctx.violation({"parser": parser, "stream": s.hex(), "lim": list(lim), "segs": [s.hex()], "kind": "decoded-body"},
                                   f"{parser} parser: the decoded body ({len(one['msgs'][0]['data']) // 2} bytes) is not what was encoded ({len(plain)} bytes)")
                 start = s.index(b"\r\n\r\n") + 2
@@ -370,7 +407,7 @@ def suite_decoded_bodies(ctx):
                     ctx.case((s, tuple(len(x) for x in segs1), parser, "decoded"), nontrivial=True)
                     a = [(m["data"], m["eof"], m["exc"]) for m in one["msgs"]]
                     b = [(m["data"], m["eof"], m["exc"]) for m in seg["msgs"]]
-                    if a != b or one["outcome"].split("@")[0] != seg["outcome"].split("@")[0]:
+                    if _decoded_differs(one, seg):
                         ctx.violation({"parser": parser, "stream": s.hex(), "lim": list(lim), "segs": [x.hex() for x in segs1],
                                        "kind": "decoded-body", "one_shot_outcome": one["outcome"], "split_outcome": seg["outcome"]},
                                       f"{parser} parser, Content-Encoding {tok.decode()}: decoded body / outcome depends on the segmentation: "
@@ -391,8 +428,9 @@ def replay(ctx, case):
         one, seg = run([s]), run(segs)
         a = [(m["data"], m["eof"], m["exc"]) for m in one["msgs"]]
         b = [(m["data"], m["eof"], m["exc"]) for m in seg["msgs"]]
-        return {"one_shot": one["outcome"], "split": seg["outcome"],
-                "violates": a != b or one["outcome"].split("@")[0] != seg["outcome"].split("@")[0]}
+        wrong = "plain" in case and not (one["msgs"] and one["msgs"][0]["exc"] is None and one["msgs"][0]["data"] == case["plain"])
+        return {"one_shot": one["outcome"], "split": seg["outcome"], "not_decoded": wrong,
+                "violates": wrong or _decoded_differs(one, seg)}
     s = bytes.fromhex(case["stream"])
     lim = tuple(case["lim"])
     segs = [bytes.fromhex(x) for x in case["segs"]]
